@@ -1019,6 +1019,10 @@ Proof.
   { intros a Ka Ia. destruct (eff_cancelled a _); [now apply pstep_inert|].
     apply (pstep_trans s3 a); [now apply pstep_inert| |now apply same_alloc_group].
     apply P_scope_cancel. now apply (Pok_treq s3). }
+  assert (Kc2 : forall a, treq s3 a -> inert s3 a -> pstep s3 (scope_cancel a (g_scope (groups a g)) false)).
+  { intros a Ka Ia.
+    apply (pstep_trans s3 a); [now apply pstep_inert| |now apply same_alloc_group].
+    apply P_scope_cancel. now apply (Pok_treq s3). }
   assert (K5 : forall e, let s5 := upd_group s4 g (fun x => gr_excs (g_excs x ++ [(t, e)]) x) in
                          treq s3 s5 /\ inert s3 s5).
   { intros e. destruct (Hx e) as [H1 H2]. split; [eapply treq_trans; eauto|eapply inert_trans; eauto]. }
@@ -1030,17 +1034,17 @@ Proof.
   - destruct (k_startfut k) as [f|].
     + destruct (f_st (futs s4 f)).
       * apply Kf.
-      * destruct (is_cancel e); [now apply Kc|]. destruct (K5 e). now apply Kc.
-      * destruct (is_cancel e); [now apply Kc|]. destruct (K5 e). now apply Kc.
-      * destruct (is_cancel e); [now apply pstep_inert|]. destruct (K5 e). now apply Kc.
-    + destruct (is_cancel e); [now apply Kc|]. destruct (K5 e). now apply Kc.
+      * destruct (is_cancel e); [now apply Kc|]. destruct (K5 e). now apply Kc2.
+      * destruct (is_cancel e); [now apply Kc|]. destruct (K5 e). now apply Kc2.
+      * destruct (is_cancel e); [now apply pstep_inert|]. destruct (K5 e). now apply Kc2.
+    + destruct (is_cancel e); [now apply Kc|]. destruct (K5 e). now apply Kc2.
   - destruct (k_startfut k) as [f|].
     + destruct (f_st (futs s4 f)).
       * apply Kf.
-      * destruct (is_cancel e); [now apply Kc|]. destruct (K5 e). now apply Kc.
-      * destruct (is_cancel e); [now apply Kc|]. destruct (K5 e). now apply Kc.
-      * destruct (is_cancel e); [now apply pstep_inert|]. destruct (K5 e). now apply Kc.
-    + destruct (is_cancel e); [now apply Kc|]. destruct (K5 e). now apply Kc.
+      * destruct (is_cancel e); [now apply Kc|]. destruct (K5 e). now apply Kc2.
+      * destruct (is_cancel e); [now apply Kc|]. destruct (K5 e). now apply Kc2.
+      * destruct (is_cancel e); [now apply pstep_inert|]. destruct (K5 e). now apply Kc2.
+    + destruct (is_cancel e); [now apply Kc|]. destruct (K5 e). now apply Kc2.
   - destruct (k_startfut k) as [f|]; [|now apply pstep_inert].
     destruct (f_st (futs s4 f)); try (now apply pstep_inert). apply Kf.
 Qed.
